@@ -73,13 +73,13 @@ Zero(t) ==
       [] t.k \in {"ptr", "any"} -> [nil |-> TRUE]
       [] t.k = "struct" -> [f |-> [i \in 1..Len(t.f) |-> Zero(t.f[i].t)]]
 
-\* reflect.Value.IsZero: -0.0 is not zero, an empty non-nil slice or map is not zero
+\* reflect.Value.IsZero: -0.0 is zero (it equals 0), an empty non-nil slice or map is not zero
 RECURSIVE IsZero(_, _)
 IsZero(t, v) ==
     CASE t.k = "bool" -> ~v.b
       [] t.k = "str" -> v.s = <<>>
       [] t.k = "int" -> v.mag = <<0>>
-      [] t.k = "float" -> v.d = <<>> /\ ~v.neg
+      [] t.k = "float" -> v.d = <<>>
       [] t.k \in {"slice", "map", "ptr", "any"} -> v.nil
       [] t.k = "array" -> \A i \in 1..t.n : IsZero(t.e, v.e[i])
       [] t.k = "struct" -> \A i \in 1..Len(t.f) : IsZero(t.f[i].t, v.f[i])
@@ -209,7 +209,8 @@ IsNumberSyntax(lit) ==
     /\ ValidOne(Opt(FALSE, FALSE, 10000), lit)
 
 \* a float64 is modelled by its shortest decimal; a literal of at most 15 significant digits well
-\* inside the range is that decimal (DBL_DIG).  Other literals are outside the model (Numbers.tla).
+\* inside the range is that decimal (DBL_DIG), a literal far beyond the range overflows, one far
+\* below it is zero.  Other literals are outside the model (Numbers.tla; the drivers keep out).
 FloatDecidable(lit) == Decidable(Normal(lit))
 
 RECURSIVE Unmarshal(_, _, _, _, _)
@@ -232,7 +233,13 @@ Unmarshal(t, old, j, o, st) ==
               IF IntAccepts(lit, t.bits, t.signed)
               THEN OK([neg |-> lit[1] = 45 /\ MagOf(lit) # <<0>>, mag |-> MagOf(lit)]) ELSE FAIL
          ELSE IF (\A i \in 1..Len(lit) : lit[i] < 128) /\ IsNumberSyntax(lit)
-              THEN LET nf == Normal(lit) IN OK([neg |-> nf.neg, d |-> nf.d, n |-> nf.n]) ELSE FAIL
+              THEN LET nf == Normal(lit) IN
+                   \* 0.d1..dk * 10^n: from n = 310 on it is beyond the largest float64 (an error),
+                   \* up to n = -330 it is below half the smallest one (zero, the sign kept)
+                   IF nf.d # <<>> /\ nf.n >= 310 THEN FAIL
+                   ELSE IF nf.d # <<>> /\ nf.n <= -330 THEN OK([neg |-> nf.neg, d |-> <<>>, n |-> 0])
+                   ELSE OK([neg |-> nf.neg, d |-> nf.d, n |-> nf.n])
+              ELSE FAIL
     ELSE IF t.k = "slice" THEN
          \* the slice ends up holding exactly the new elements, each decoded into a zero value
          IF j.t # "arr" THEN FAIL
